@@ -78,6 +78,9 @@ class Trace:
                         if d2 is d:
                             del outstanding[j]
                             break
+            for didx in o.get("failacks", []):
+                if 0 <= didx < len(self.deliv):
+                    self.deliv[didx]["failed"] = True
             for e in o["done"]:
                 self.done_step[e] = step
             for e in o["failed"]:
@@ -332,6 +335,23 @@ def check_refs(case, obs, want=("C04", "C05")):
                                 "after everything finished counter of element %r is %d, legitimate holders: %d" % (inp["val"], c, legit)))
                 elif legit == 0 and len(T.fired_step.get(r, [])) != 1 and inp["md"]:
                     out.append(("C05", "C05/callback-count/%s" % k, "element %r is gone but its callback fired %d times" % (inp["val"], len(T.fired_step.get(r, [])))))
+    return out
+
+
+def check_failed(case, obs):
+    """C04, last clause: the callback is never triggered for an element whose processing raised (here: the consumer's
+    awaitable failed)."""
+    T = Trace(case, obs)
+    out = []
+    for d in T.deliv:
+        if not d.get("failed"):
+            continue
+        for (i, r) in d["md"]:
+            if r and T.fired_step.get(i):
+                cls = "non-waiting-node" if T.kind in ("plain", "zip", "zip3") else T.kind
+                out.append(("C04", "C04/callback-for-failed/%s" % cls,
+                            "the consumer handling %r failed (step %s) but the callback of counter %d fired (step %r)"
+                            % (d["val"], d["acked_step"], i, T.fired_step[i])))
     return out
 
 
